@@ -68,6 +68,9 @@ type handlerSpec struct {
 	Fault   string      `json:"fault"` // "", cutenv:<k>, cutpay, afterend, badendjson, ...
 	NoRead  bool        `json:"noread"`
 	NoClose bool        `json:"noclose"` // do not close the request body (handlers normally do)
+	// the handler reads the body on one goroutine and closes it from another while a Read is
+	// blocked in the middle of a message (the client pauses there until the Close has been issued)
+	CloseRace bool `json:"closerace"`
 	Ignore  bool        `json:"ignore"`  // ignore request-side failures (hostile handler)
 }
 
